@@ -431,9 +431,16 @@ fn formed(seed: u64, n: usize, cfg: &Cfg, renew: Renew, lat: (u64, u64), acc: &m
 }
 
 fn formed_with(seed: u64, n: usize, cfg: &Cfg, renew: Renew, lat: (u64, u64), join: Join, acc: &mut Acc) -> Result<Option<Formed>, V> {
+    formed_stride(seed, n, cfg, renew, lat, join, 1, acc)
+}
+
+/// `stride` 3: addresses 0, 3, 6, ... (identities without padding: every header of one kind and every member
+/// has the same encoded length)
+#[allow(clippy::too_many_arguments)]
+fn formed_stride(seed: u64, n: usize, cfg: &Cfg, renew: Renew, lat: (u64, u64), join: Join, stride: u16, acc: &mut Acc) -> Result<Option<Formed>, V> {
     let mut sim = Sim::new(seed, CodecKind::Hand, lat);
     for a in 0..n {
-        sim.add(a as u16, cfg.clone(), renew, HdlCfg::disabled(), None);
+        sim.add(a as u16 * stride, cfg.clone(), renew, HdlCfg::disabled(), None);
     }
     let mut nop = |_: &Sim, _: usize, _: &CallRec| -> Result<(), V> { Ok(()) };
     let last = form(&mut sim, n, join, cfg.p, acc, &mut nop)?;
@@ -884,9 +891,20 @@ fn c04_case(ctx: &Ctx, case: u64, acc: &mut Acc) -> Verdict {
     if r.chance(1, 3) {
         cfg.pa = Some((cfg.p * r.range(1, 3) / 2, r.range(1, 3) as usize));
     }
+    // packets with room for exactly one update behind the widest header (or one or two bytes more) in a quarter
+    // of the configurations: the suspicion and its refutation then travel one update per datagram
+    let tight = r.chance(1, 4);
+    if tight {
+        // fixed-length identities (addresses that are multiples of 3), so that "exactly one update" is exact
+        let a = Id::new(0, 0);
+        let hl = wire::encode_header(CodecKind::Hand, &Header { src: a, src_incarnation: 0, dst: a, message: Message::Ping(0) }).len();
+        let ml = wire::encode_member(CodecKind::Hand, &Member::new(a, 0, State::Suspect)).len();
+        cfg.mps = hl + 2 + ml + r.usize(3);
+    }
+    let stride = if tight { 3 } else { 1 };
     // reference run: count datagrams in a window of more than one full rotation of every member
     let window = (2 * n as u64 + 1) * cfg.p;
-    let Some(mut reference) = formed(sim_seed, n, &cfg, renew, lat, acc)? else {
+    let Some(mut reference) = formed_stride(sim_seed, n, &cfg, renew, lat, Join::SeqToFirst, stride, acc)? else {
         acc.inconclusive += 1;
         return Ok(());
     };
@@ -908,7 +926,7 @@ fn c04_case(ctx: &Ctx, case: u64, acc: &mut Acc) -> Verdict {
     let mut fr = Rng64::derive(ctx.seed ^ 0xd40b, cfg_idx, drop_slot);
     let slot = (in_window / per_cfg).max(1);
     let d = (drop_slot * in_window / per_cfg + fr.below(slot)).min(in_window - 1);
-    let Some(mut f) = formed(sim_seed, n, &cfg, renew, lat, acc)? else {
+    let Some(mut f) = formed_stride(sim_seed, n, &cfg, renew, lat, Join::SeqToFirst, stride, acc)? else {
         acc.inconclusive += 1;
         return Ok(());
     };
